@@ -170,6 +170,21 @@ func replayListAlias(c *Ctx, items []*Item) map[string]*ReplayOutcome {
 	}
 	seen := map[string]bool{}
 	var targets []laTarget
+	// only the functions the property names as non-destructive have an oracle here: a destructive function
+	// (nconc, fill, nreverse ...) changing its argument is what it is for, not a failing input
+	listed := map[string]bool{}
+	for _, l := range [][]string{c06Fresh, c06Tail, c06NoWrite} {
+		for _, fn := range funcsInFiles(c, l) {
+			listed[vc.FuncName(fn)] = true
+		}
+	}
+	var own []*Item
+	for _, it := range items {
+		if listed[it.Root] {
+			own = append(own, it)
+		}
+	}
+	items = own
 	for _, it := range items {
 		for _, t := range typesOf(it.Root) {
 			if seen[t] {
